@@ -953,6 +953,41 @@ def check_cancelled_matrix(res: Result, only: dict | None = None, tag: str = "C1
                 f"{tag}:check-cancelled-chain"))
 
 
+def check_cancelled_noscope(res: Result, only: dict | None = None) -> None:
+    """run_sync called from a task that is inside no cancel scope at all (top level of anyio.run, a
+    native asyncio task): the function's value comes back and check_cancelled() reports nothing"""
+    import asyncio as aio
+
+    for ab in (False, True):
+        for where in ("anyio.run", "asyncio task"):
+            case = {"check_cancelled_noscope": {"abandon_on_cancel": ab, "where": where}}
+            if only is not None and only != case["check_cancelled_noscope"]:
+                continue
+
+            def fn() -> str:
+                from_thread.check_cancelled()
+                return "value"
+
+            async def call() -> Any:
+                return await to_thread.run_sync(fn, abandon_on_cancel=ab)
+
+            async def main() -> Any:
+                if where == "anyio.run":
+                    return await call()
+                return await aio.get_running_loop().create_task(call())
+
+            try:
+                got: Any = anyio.run(main)
+            except BaseException as e:  # noqa: BLE001
+                got = f"raised {type(e).__name__}: {e}"
+            res.evaluations += 1
+            if got != "value":
+                res.violations.append(Violation(
+                    case, f"to_thread.run_sync(abandon_on_cancel={ab}) from a task inside no cancel scope "
+                          f"({where}), function calling from_thread.check_cancelled(): {got!r} instead of the "
+                          f"function's value", "C14:no-scope-call"))
+
+
 def run(ctx: Ctx) -> Result:
     res = Result(rule="real threads behind gates: every completion order of <=4 (quick) / <=6 (thorough) "
                       "concurrent calls x limiter size 1..3 x {asyncio, uvloop}, kinds/abandon/cancellation "
@@ -983,6 +1018,7 @@ def run(ctx: Ctx) -> Result:
     hit = res.stats.get("model_branch_hits", {})
     res.stats["model_branches_unhit"] = [b for b in ALL_BRANCHES if b not in hit]
     check_cancelled_matrix(res)
+    check_cancelled_noscope(res)
     return res
 
 
@@ -990,6 +1026,8 @@ def replay(ctx: Ctx, case: Any) -> Result:
     res = Result(rule="replay")
     if "check_cancelled" in case:
         check_cancelled_matrix(res, only=case["check_cancelled"])
+    elif "check_cancelled_noscope" in case:
+        check_cancelled_noscope(res, only=case["check_cancelled_noscope"])
     else:
         run_cases([case], res)
     return res
